@@ -17,6 +17,13 @@ CLAIMED = {
          "corollaries for arbitrary swap sequences and add-then-remove; same correspondence as C01 plus K/S^2 monitor on real observations.",
          "7 C02", "Coq per-step monotonicity theorem + correspondence"),
 }
+CLAIMED["C03"] = ("Theorems: every successful fixed-input / fixed-output swap of the model returns the unique floor of the documented rational "
+    "(cross-multiplied is_floor), respects min/max, charges floor+1 which is proved sufficient (in_enough), special fee bounded and leaving only via "
+    "burn/collector/trusted pair; failing below the minimum. Tied to dex/pair by differential replay + formula/conservation monitors on real swaps.",
+    "7 C03", "Coq characterisation theorems (floor uniqueness) + correspondence")
+CLAIMED["C04"] = ("Theorems: add uses the largest at-ratio deposit that fits, mints min of the two floors, refunds the rest; remove pays the exact floors or fails; "
+    "first deposit locks MINIMUM_LIQUIDITY in the pair and LP supply can never fall below it afterwards (step_S_floor); initial-adder gate. "
+    "Tied to dex/pair by differential replay + pro-rata monitors.", "7 C04", "Coq characterisation theorems + inductive floor invariant + correspondence")
 NOT_YET = {}
 
 def main():
